@@ -3,3 +3,4 @@ import UberjobModel.Props.C04
 #print axioms Uberjob.Engine.C04_enqueued_once
 #print axioms Uberjob.Engine.C04_place
 #print axioms Uberjob.Engine.C04_only_graph_nodes
+#print axioms Uberjob.Engine.C04_exact
